@@ -25,9 +25,10 @@ RULE = ("one case = one crossing (stream.AsyncFIFO / ClockDomainCrossing depth 4
         "(or >= 30 output updates of the bus synchroniser) and >= 1 injected resolution; distinct = distinct schedule digests")
 ASSUMPTIONS = ["migen tracer shim (names only)", "metastability is modelled at declared synchronisers (MultiReg first flop) only, per-bit old/new",
                "every clock ticks at least once every 12 scheduler ticks (fairness) so that bounded progress is meaningful",
-               "BusSynchronizer timeout (128 / 64) is longer than one request/acknowledge round trip at ratio <= 3"]
-FLOORS = {"quick": {"tokens_crossed": 30000, "injections": 20000, "coinciding_edge_ticks": 50000, "bussync_output_updates": 4000,
-                    "n_edge_patterns": 300, "axil_bytes_compared": 5000, "resets_applied": 100},
+               "BusSynchronizer timeout (128 / 64) is longer than one request/acknowledge round trip at ratio <= 3",
+               "a reset pulse lasts at least 3 cycles of each of the two clocks (AsyncResetSynchronizer guarantee)"]
+FLOORS = {"quick": {"tokens_crossed": 10000, "injections": 15000, "coinciding_edge_ticks": 50000, "bussync_output_updates": 4000,
+                    "n_edge_patterns": 300, "axil_bytes_compared": 3000, "resets_applied": 80},
           "thorough": {"tokens_crossed": 600000, "injections": 400000, "coinciding_edge_ticks": 1000000, "bussync_output_updates": 80000,
                        "n_edge_patterns": 5000, "axil_bytes_compared": 100000, "resets_applied": 2000}}
 SHARD_TIMEOUT = {"quick": 900, "thorough": 3000}
@@ -35,7 +36,7 @@ N_SAMPLES = 3
 
 
 def plan(tier, seed):
-    per = 5 if tier == "quick" else 90
+    per = 8 if tier == "quick" else 100
     cases = []
     for depth in (4, 8, 16):
         for buffered in (False, True):
@@ -81,12 +82,18 @@ def run_fifo(case, rng):
         dut = stream.ClockDomainCrossing(d, "a", "b", depth=depth, buffered=buffered, with_common_rst=(kind == "cdc_rst"))
     top.submodules.dut = dut
     sched, inj = mk_env(rng)
+    clocks = {"a": 10, "b": 10}
+    if kind == "cdc_rst":
+        # the common-reset variant creates two derived clock domains whose clocks are combinationally the user clocks:
+        # the simulator only runs sync logic of domains known to its time manager, so they tick together with a / b
+        sched.aliases = {"a": ["from%d" % dut.duid], "b": ["to%d" % dut.duid]}
+        clocks.update({"from%d" % dut.duid: 10, "to%d" % dut.duid: 10})
     n = 60
     toks = sl.gen_tokens(rng, dut.sink, n, rng.choice(["packets", "wild"]))
     # unique ids: token counter in field b (7 bits) is not enough: use both fields
     toks = [dict(t, pay=((i >> 7) & 0xf, i & 0x7f)) for i, t in enumerate(toks)]
     hostile = rng.randint(100, 500)
-    bench = Bench(top, clocks={"a": 10, "b": 10}, cap=hostile + 60 * n + 1500, overrides=inj.overrides, scheduler=sched)
+    bench = Bench(top, clocks=clocks, cap=hostile + 60 * n + 1500, overrides=inj.overrides, scheduler=sched)
     bench.precommit_hooks = [inj.hook]
     drv = bench.add(SourceDriver(dut.sink, toks, Then(make_sched(rng)[0], hostile), rng), "a")
     im = bench.add(EndpointMonitor(dut.sink, "sink"), "a")
@@ -116,13 +123,21 @@ def run_fifo(case, rng):
                 self.force = True
                 self.stalled = {"cycle": c, "last_move": self.last}
             w = None
+            if kind == "cdc_rst" and getattr(self, "released", None) and c - self.released[0] >= 4 and bench.cycle["a"] - self.released[1] >= 4:
+                # a few cycles of both clocks after the release: every token accepted from now on must be delivered
+                self.acc_mark = len(im.log)
+                self.released = None
             if kind == "cdc_rst":
                 if self.rst_left > 0:
-                    self.rst_left -= 1
-                    if self.rst_left == 0:
+                    # a reset is held until BOTH domains have seen it for at least `rst_left` of their own cycles (what the
+                    # real AsyncResetSynchronizer guarantees; the simulator's stand-in needs >= 1 period per domain)
+                    if bench.cycle["a"] - self.rst_a >= self.rst_left and c - self.rst_b >= self.rst_left:
+                        self.rst_left = 0
+                        self.released = (c, bench.cycle["a"])
                         w = {cd_a.rst: 0, cd_b.rst: 0}
                 elif c < hostile and rng.random() < 0.01:
-                    self.rst_left = rng.randint(2, 6)
+                    self.rst_left = rng.randint(3, 6)
+                    self.rst_a, self.rst_b = bench.cycle["a"], c
                     which = rng.choice([cd_a.rst, cd_b.rst])
                     resets.append(c)
                     w = {which: 1}
@@ -153,13 +168,19 @@ def run_fifo(case, rng):
             while j < len(acc) and acc[j] != b_:
                 j += 1
             if j >= len(acc):
-                errs.append({"kind": "token-corrupted-duplicated-or-reordered-across-reset", "index": i, "delivered": b_, "resets_at": resets[:5]})
+                cyc = om.log[i][0]
+                near = [r_ for r_ in resets if 0 <= cyc - r_ <= 10]
+                errs.append({"kind": "phantom-token-at-reset-assertion" if near else "token-corrupted-duplicated-or-reordered-across-reset",
+                             "index": i, "delivered": b_, "delivered_at_b_cycle": cyc, "resets_at": resets[:5]})
                 break
             j += 1
-        # after the last reset everything accepted must arrive
-        if not errs and ctl.stalled is None and acc and dlv and acc[-1] != dlv[-1] and drv.done():
-            errs.append({"kind": "tokens-accepted-after-last-reset-not-delivered", "accepted": len(acc), "delivered": len(dlv),
-                         "resets_at": resets[:5]})
+        # every token accepted well after the last reset must arrive (in order, at the end of the delivered list)
+        mark = getattr(ctl, "acc_mark", None)
+        if not errs and mark is not None and ctl.rst_left == 0 and getattr(ctl, "released", None) is None and drv.done():
+            tail = acc[mark:]
+            if tail and dlv[-len(tail):] != tail:
+                errs.append({"kind": "tokens-accepted-after-last-reset-not-delivered", "accepted_after_reset": len(tail),
+                             "delivered_total": len(dlv), "resets_at": resets[-3:]})
     for sv in om.stab_viol[:1]:
         # a reset of the read side legitimately withdraws an offered token
         if kind != "cdc_rst":
